@@ -428,10 +428,10 @@ func ruleDecodeWidth(p *Prog, r *Report) {
 				tn = "uint8"
 			}
 			t, _ := termOf(*e.Inner)
-			t = strings.ReplaceAll(t, "byte(", "uint8(")
+			t = normaliseBE(strings.ReplaceAll(t, "byte(", "uint8("))
 			// one widening conversion around the exact-width value is harmless
 			for _, w := range widenings[b.fn] {
-				if tn == w && strings.HasPrefix(t, w+"(") && strings.HasSuffix(t, ")") && re.MatchString(t[len(w)+1:len(t)-1]) {
+				if tn == w && typeWidth(w) > b.k && strings.HasPrefix(t, w+"(") && strings.HasSuffix(t, ")") && re.MatchString(t[len(w)+1:len(t)-1]) {
 					tn, t = b.typ, t[len(w)+1:len(t)-1]
 				}
 			}
@@ -490,6 +490,7 @@ func ruleDecodeWidth(p *Prog, r *Report) {
 					}
 					tn := types.TypeString(v.T, nil)
 					t, _ := termOf(*v.Inner)
+					t = normaliseBE(t)
 					if c.name == "binary" {
 						if want := fmt.Sprintf("int(p0.input[%d])", 18+i); tn != "int" || t != want {
 							probs = append(probs, fmt.Sprintf("element %d is %s(%s): the factory accepts a byte value only as %s", i, tn, t, want))
@@ -566,6 +567,7 @@ func ruleDecodeWidth(p *Prog, r *Report) {
 				}
 				tn := types.TypeString(v.T, nil)
 				t, _ := termOf(*v.Inner)
+				t = normaliseBE(t)
 				if c.name == "binary" {
 					if tn != "int" || !regexp.MustCompile(`^int\(p0\.input.*\)$`).MatchString(t) {
 						probs = append(probs, fmt.Sprintf("element %s(%s): the factory accepts a byte value only as int(payload byte)", tn, t))
@@ -587,6 +589,20 @@ func ruleDecodeWidth(p *Prog, r *Report) {
 		}
 	}
 	r.Floor(rule, 13)
+}
+
+// typeWidth: bytes of a basic numeric type by name (int and uint are 8 on the
+// assumed platform).
+func typeWidth(name string) int64 {
+	switch name {
+	case "int8", "uint8", "byte":
+		return 1
+	case "int16", "uint16":
+		return 2
+	case "int32", "uint32", "float32":
+		return 4
+	}
+	return 8
 }
 
 var widenings = map[string][]string{
@@ -1159,9 +1175,9 @@ func widthFromItemDecoder(p *Prog, r *Report, rule, key, family string, k int64,
 			tn = "uint8"
 		}
 		t, _ := termOf(*e.Inner)
-		t = strings.ReplaceAll(t, "byte(", "uint8(")
+		t = normaliseBE(strings.ReplaceAll(t, "byte(", "uint8("))
 		for _, w := range widenings[family] {
-			if tn == w && strings.HasPrefix(t, w+"(") && strings.HasSuffix(t, ")") && re.MatchString(t[len(w)+1:len(t)-1]) {
+			if tn == w && typeWidth(w) > k && strings.HasPrefix(t, w+"(") && strings.HasSuffix(t, ")") && re.MatchString(t[len(w)+1:len(t)-1]) {
 				tn, t = typ, t[len(w)+1:len(t)-1]
 			}
 		}
